@@ -73,6 +73,24 @@ def run_pair(hbin, args, timeout=2400):
     return ci, cm
 
 
+def run_harness_only(hbin, args, timeout=2400):
+    rc, impl, err = vlib.run([hbin] + args, timeout=timeout, env=vlib.goenv())
+    if rc != 0:
+        raise RuntimeError("harness failed rc=%s: %s" % (rc, err[-2000:]))
+    return split_cases(impl)
+
+
+def run_mode(tot, hbin, mode, args):
+    """run one batch / replay in the given mode and compare"""
+    if mode == "dly":
+        ci = run_harness_only(hbin, args)
+        compare_dly(tot, ci)
+        return ci
+    ci, cm = run_pair(hbin, args)
+    compare(tot, ci, cm, "net" if mode == "netx" else mode)
+    return ci
+
+
 def tagged(lines, tag):
     for l in lines:
         if l == tag or l.startswith(tag + " "):
@@ -134,7 +152,7 @@ class Tot:
         self.n = {"net_cases": 0, "net_ok": 0, "sim_cases": 0, "sim_ticks": 0, "hdl_cases": 0, "hdl_clocks": 0, "hdl_ok": 0,
                   "stream_compared": 0, "stream_live": 0, "stream_values": 0, "excluded_by_PortReuseSafe": 0, "no_traffic": 0,
                   "env_checked": 0, "model_stream_checked": 0, "noise_cases": 0, "ref_checked": 0,
-                  "delayed_cases": 0, "delayed_live": 0, "delayed_live_fanout": 0}
+                  "dly_cases": 0, "delayed_runs": 0, "delayed_live": 0, "delayed_live_fanout": 0}
         self.dist = {"procs": {}, "rsize": {}, "maxfan": {}, "inputs": {}, "outputs": {}, "mixed_consumers": 0, "unlinked_sinks": 0,
                      "unconsumed_drivers": 0, "bonds": 0}
         self.distinct = set()
@@ -265,33 +283,75 @@ def compare(tot, ci_all, cm_all, mode):
             tot.fails.append(dict(base, kind="reference-stream", detail="the generated HDL's delivered streams are not those of the blocking-IO reference network (refutes RtlRefines)",
                                   impl=tagged(cm, "SH"), model=tagged(cm, "RF")))
         # "regardless of how many clock cycles either takes": the simulator with opcode latencies
-        sd_raw = tagged(ci, "SD")
-        if sd_raw is not None:
-            tot.n["delayed_cases"] += 1
-            sd = streams(sd_raw, nout) if sd_raw != "err" else None
-            whyd = None
-            if sd is None:
-                whyd = "the simulator with opcode delays fails to step"
-            elif not prefix_ok(sd, ss):
-                whyd = "the simulator delivers other streams with simulated opcode delays (%s) than without" % tagged(ci, "DL")
-            elif not prefix_ok(sd, sh):
-                whyd = "the simulator with simulated opcode delays (%s) and the generated HDL deliver different streams" % tagged(ci, "DL")
-            else:
-                for a, b in zip(ss, sd):
-                    if len(a) >= 12 and len(b) == 0:
-                        whyd = "the simulator with opcode delays (%s) stalls where it keeps delivering without them" % tagged(ci, "DL")
-            if whyd:
-                tot.fails.append(dict(base, kind="property-fails-on-impl", why=whyd, simulator_streams=tagged(ci, "SS"),
-                                      delayed_simulator_streams=sd_raw, hdl_streams=tagged(cm, "SH"), ticks=len(xi)))
-            elif any(min(len(a), len(b)) >= 3 for a, b in zip(ss, sd)):
-                tot.n["delayed_live"] += 1
-                if ft["maxfan"] >= 2:
-                    tot.n["delayed_live_fanout"] += 1
+        check_delayed(tot, ci, base, ft, nout, ss, sh, tagged(cm, "SH"), len(xi))
         # the statement of stream_eq on the two models
         tot.n["model_stream_checked"] += 1
         if not prefix_ok(ms, sr):
             tot.fails.append(dict(base, kind="model-stream", detail="Bm.runRtl and Bm.runIsa deliver different streams (refutes stream_eq_full)",
                                   impl=tagged(cm, "SR"), model=tagged(cm, "MS")))
+
+
+def delayed_runs(ci):
+    """the (DL, SD) pairs of a case, in order"""
+    runs, dl = [], None
+    for l in ci:
+        if l.startswith("DL "):
+            dl = l[3:]
+        elif l == "DL":
+            dl = ""
+        elif l.startswith("SD") and dl is not None:
+            runs.append((dl, l[3:] if len(l) > 2 else ""))
+            dl = None
+    return runs
+
+
+def check_delayed(tot, ci, base, ft, nout, ss, sh, sh_raw, ticks):
+    """simulator with simulated opcode delays vs simulator without (and vs the HDL when given)"""
+    for dl, sd_raw in delayed_runs(ci):
+        tot.n["delayed_runs"] += 1
+        sd = streams(sd_raw, nout) if sd_raw != "err" else None
+        why = None
+        if sd is None:
+            why = "the simulator with opcode delays (%s) fails to step" % dl
+        elif not prefix_ok(sd, ss):
+            why = "the simulator delivers other streams with simulated opcode delays (%s) than without" % dl
+        elif sh is not None and not prefix_ok(sd, sh):
+            why = "the simulator with simulated opcode delays (%s) and the generated HDL deliver different streams" % dl
+        else:
+            for a, b in zip(ss, sd):
+                if len(a) >= 12 and len(b) == 0:
+                    why = "the simulator with opcode delays (%s) stalls where it keeps delivering without them" % dl
+        if why:
+            case = [l for l in base["case"] if not l.startswith("DL")] + ["DL " + dl]
+            tot.fails.append(dict(base, case=case, kind="property-fails-on-impl", why=why, simulator_streams=tagged(ci, "SS"),
+                                  delayed_simulator_streams=sd_raw, hdl_streams=sh_raw, ticks=ticks))
+            return
+        if any(min(len(a), len(b)) >= 3 for a, b in zip(ss, sd)):
+            tot.n["delayed_live"] += 1
+            if ft["maxfan"] >= 2:
+                tot.n["delayed_live_fanout"] += 1
+                tot.distinct.add(("dly", ci[0], dl))
+
+
+def compare_dly(tot, ci_all):
+    """mode dly: harness only (no oracle): streams with delays against streams without"""
+    for ci in ci_all:
+        g = ci[0]
+        base = {"mode": "dly", "case": replay_lines(ci)}
+        if g.startswith("G err"):
+            tot.fails.append(dict(base, kind="harness-build", detail=g[:300]))
+            continue
+        ft = tot.feat(g)
+        nout = int(g.split()[3])
+        ss = streams(tagged(ci, "SS"), nout)
+        if ss is None:
+            tot.fails.append(dict(base, kind="harness-build", detail="no SS line"))
+            continue
+        tot.n["dly_cases"] += 1
+        e = tagged(ci, "E") or ""
+        k = [x for x in e.split() if x.startswith("clocks=")]
+        ticks = int(k[0][7:]) * 2 // 3 if k else 0
+        check_delayed(tot, ci, base, ft, nout, ss, None, None, ticks)
 
 
 def write_replay_file(case_lines, ticks=None):
@@ -315,8 +375,7 @@ def shrink_horizon(hbin, fail):
         mid = (lo + hi) // 2
         t = Tot()
         case = [l if not l.startswith("E ") else " ".join(x if not x.startswith("clocks=") else "clocks=%d" % (mid * 3 // 2) for x in l.split()) for l in fail["case"]]
-        ci, cm = run_pair(hbin, ["replayhdl", write_replay_file(case, mid)])
-        compare(t, ci, cm, "hdl")
+        run_mode(t, hbin, fail.get("mode", "hdl"), ["replay" + fail.get("mode", "hdl"), write_replay_file(case, mid)])
         bad = [f for f in t.fails if f["kind"] == "property-fails-on-impl"]
         if bad:
             best = dict(bad[0], ticks=mid, case=case)
@@ -354,19 +413,21 @@ def run(rep):
         "protocol-abiding environment: holds valid until received and waits for received to drop; acknowledges after valid and holds the acknowledge until valid drops",
         "ha mode, L = 0, opcodes nop rset inc dec clr add mult cpy j i2rw r2owa; shared objects, external modules (etherbond, bmapi, board top levels), "
         "simbox delay distributions are outside the model",
+        "timing independence of the simulator itself: a second (and for machines with fan-out to several processors a third and fourth) real VM runs the "
+        "same machine and environment with VM.SimDelayMap = single-valued per-opcode latencies (1..23 idle ticks after inc/add/cpy/nop/j/i2rw/r2owa/...), "
+        "4 x the ticks; its delivered streams must be prefix-compatible with the undelayed simulator's and with the HDL's (modes hdl and dly)",
         "streams are compared prefix-wise up to the horizon (ticks / 1.5 x clocks); a world that stops delivering while the other continues is reported",
     ]
     tot = Tot()
     if os.path.exists(_oracle()):
         for f in corpus_files():
-            mode = "net" if "net" in os.path.basename(f) else "hdl"
-            ci, cm = run_pair(hbin, ["replay" + mode, f])
-            compare(tot, ci, cm, mode)
-        plan = [("net", 400, 0), ("sim", 40, 150), ("hdl", 60, 300)] if not thorough else \
-               [("netx", 0, 0), ("net", 6000, 0), ("sim", 400, 300), ("hdl", 1500, 400)]
+            b = os.path.basename(f)
+            mode = "net" if b.startswith("net") else "dly" if b.startswith("dly") else "hdl"
+            run_mode(tot, hbin, mode, ["replay" + mode, f])
+        plan = [("net", 400, 0), ("sim", 40, 150), ("hdl", 60, 300), ("dly", 400, 300)] if not thorough else \
+               [("netx", 0, 0), ("net", 6000, 0), ("sim", 400, 300), ("hdl", 1500, 400), ("dly", 6000, 400)]
         for mode, n, ticks in plan:
-            ci, cm = run_pair(hbin, [mode, str(n), str(ticks)])
-            compare(tot, ci, cm, "net" if mode == "netx" else mode)
+            run_mode(tot, hbin, mode, [mode, str(n), str(ticks)])
     n = tot.n
     rep.coverage.update({
         "evaluations": n["net_cases"] + n["sim_ticks"] + n["hdl_clocks"],
@@ -376,12 +437,14 @@ def run(rep):
                 "pipeline programs (rset prologue; loop: i2rw of connected inputs, inc/dec/clr/add/cpy/mult/nop, r2owa of connected outputs, j) x "
                 "value streams and stall patterns per external port; evaluations = netlists compared + simulator ticks compared + hardware clocks compared; "
                 "distinct non-trivial = distinct graphs with at least one bond whose netlist was compared + distinct (graph, programs) whose "
-                "delivered streams were compared on at least 3 values of some external output in both worlds",
+                "delivered streams were compared on at least 3 values of some external output in both worlds + distinct (graph with fan-out >= 2, "
+                "opcode-latency assignment) whose delayed and undelayed simulator streams were compared on at least 3 values",
         "samples": tot.samples or [{"note": "no live stream case in this run"}],
         "traces_validated_against_impl": n["sim_cases"] + n["hdl_ok"],
         "input_distribution": dict(n, **tot.dist),
         "unmodelled": ["shared objects and their ports", "external modules (etherbond, udpbond, bmapi, board top levels)", "modes vn/hy, RAM, threads",
-                       "simbox delay distributions (DelayCounter)", "testbench generation"],
+                       "simbox delay distributions in the models (BMV.Isa has DelayCounter = 0: the simulator with simulated opcode "
+                       "latencies is compared on delivered streams only, not tick by tick)", "testbench generation"],
     })
     if n["excluded_by_PortReuseSafe"]:
         rep.notes.append("%d of %d HDL cases met the C04 signature (PortReuseSafe fails) and were not stream-compared" % (n["excluded_by_PortReuseSafe"], n["hdl_ok"]))
@@ -419,9 +482,8 @@ def replay(rep, path):
     obj = json.load(open(path))
     f = obj if obj.get("case") else (obj.get("first_disagreement") or {})
     mode = f.get("mode", "hdl")
-    ci, cm = run_pair(hbin, ["replay" + mode, write_replay_file(f.get("case", []), f.get("ticks"))])
     tot = Tot()
-    compare(tot, ci, cm, mode)
+    ci = run_mode(tot, hbin, mode, ["replay" + mode, write_replay_file(f.get("case", []), f.get("ticks"))])
     if not ci:
         tot.fails.append({"kind": "replay-did-not-run", "mode": mode, "case": f.get("case", [])})
     rep.coverage.update({"evaluations": max(1, tot.n["net_cases"] + tot.n["sim_ticks"] + tot.n["hdl_clocks"]),
